@@ -4,7 +4,8 @@
  * Script (blank separated tokens):
  *   K n  {cls font}*n      key table, ids 1..n: key i = (fonts[font], glyph pointer searched so that the
  *                          REAL hash (hash & HASH_MASK) equals cls; cls = -1: any; cls = -2-j: same
- *                          font_key+glyph_key sum as key j+1 (another font), i.e. full hash collision
+ *                          font_key+glyph_key sum as key j+1 (another font), i.e. full hash collision;
+ *                          cls = -100-j: the glyph key of key j under another font
  *   KR n window            n keys, font 0, hash < window (window 0: any)
  *   R name                 new execution: fresh cache; logs Reset, Keys
  *   F | T                  freeze | thaw
@@ -377,6 +378,11 @@ find_keys (FILE *in, int n)
 	int cls, font;
 	if (fscanf (in, "%d %d", &cls, &font) != 2) exit (3);
 	kfont[i] = fonts[font % 3];
+	if (cls <= -100)
+	{
+	    kglyph[i] = kglyph[-100 - cls];        /* the glyph key of key j under another font */
+	    continue;
+	}
 	if (cls <= -2)
 	{
 	    int j = -2 - cls + 1;
